@@ -17,8 +17,9 @@ META = {
             "transition and exports every transition from every input of length <= 3 (820 inputs with duplicate keys, "
             "ties, negative values; counts -1,0,1,2,5) and every second step; EVERY first-step transition is executed on "
             "the real functions through api.Evaluate (items and Count()-vs-items), over int/float/string/feature-ID "
-            "keys and values and three input representations, plus (sampled in quick, far more in thorough) the "
-            "two-step pipelines; every FindValue/FindValues transition is executed on ingest.CollectionFeature.",
+            "keys and values and three input representations, plus a seeded sample of the two-step pipelines (quick: "
+            "15 000 paths from inputs of <= 2 items; thorough: 150 000 paths from inputs of <= 3 items); every "
+            "FindValue/FindValues transition is executed on ingest.CollectionFeature.",
     "note": "Small scope (inputs <= 3 items from 3 keys x 3 values, lookups <= 4 items); homogeneous key/value kinds; "
             "the unary functions given to map/filter/map-items are 4+4+3 fixed lambdas/partials. Unspecified behaviour "
             "is not asserted: order of sum-by-key/count-*/top results, choice among ties in top, join-missing on "
